@@ -27,6 +27,7 @@ def gen_plan(seed, i, tier):
         ver = rng.choice(['OB', 'FO3', 'SK', 'SSE', 'FO4', 'FO76'])
         init = {'settle': rng.chance(0.3), 'builder': {'version': ver, 'salt': rng.below(1 << 30), 'nodes': rng.below(3),
                                                        'shapes': [hist.shape_spec(rng, ver, 'quick', name='s%d' % k) for k in range(rng.range(1, 2))]}}
+        hist.maybe_attach(rng, init, 0.4)
     else:
         types = synth.block_types()
         t = rng.choice(types)
